@@ -409,5 +409,41 @@ func builtinPrograms() []*Program {
 			),
 		},
 	})
+
+	// 7. equal-looking names: package names that are prefixes of each other (foo.v1 / foo.v10, and a
+	// dependency foo.v100), the same type and file names in each of them.
+	thing100 := &descriptorpb.FileDescriptorProto{
+		Name: proto.String("foo/v100/thing.proto"), Syntax: proto.String("proto3"), Package: proto.String("foo.v100"),
+		MessageType: []*descriptorpb.DescriptorProto{{Name: proto.String("Thing"), Field: []*descriptorpb.FieldDescriptorProto{st("hundred", 1)}}},
+		EnumType:    []*descriptorpb.EnumDescriptorProto{enumOf("Level", "LEVEL")},
+	}
+	out = append(out, &Program{
+		Name:     "builtin/prefix_clash",
+		Packages: []string{"foo.v1", "foo.v10", "use.v2"},
+		Deps:     []*descriptorpb.FileDescriptorProto{thing100},
+		Files: map[string]string{
+			"foo/v1/thing.j5s":  j5s("package foo.v1", "", "object Thing {", "  field one string", "}", "", "enum Level {", "  option LOW", "  option HIGH", "}"),
+			"foo/v10/thing.j5s": j5s("package foo.v10", "", "object Thing {", "  field ten string", "  field more integer:INT64", "}", "", "enum Level {", "  option A", "  option B", "  option C", "}"),
+			"foo/v10/extra.proto": strings.Join([]string{
+				"syntax = \"proto3\";", "package foo.v10;", "message Extra {", "  string e = 1;", "}",
+			}, "\n"),
+			"use/v2/use.j5s": j5s(
+				"package use.v2",
+				"import foo.v1",
+				"import foo.v10",
+				"import foo.v100",
+				"",
+				"object User {",
+				"  field one object:foo.v1.Thing",
+				"  field ten object:foo.v10.Thing",
+				"  field hundred object:foo.v100.Thing",
+				"  field extra object:foo.v10.Extra",
+				"  field l1 enum:foo.v1.Level",
+				"  field l10 enum:foo.v10.Level",
+				"  field l100 enum:foo.v100.Level",
+				"}",
+			),
+		},
+	})
 	return out
 }
